@@ -478,7 +478,6 @@ func VerifH_TwirpFinishOK() {
 	vrt.Cover("twirpfinish-end")
 }
 
-
 // refJSONString decodes a JSON string literal at b[pos] (reference decoder written from
 // RFC 8259: escapes \" \\ \/ \b \f \n \r \t \uXXXX); returns the decoded bytes (BMP code
 // points below 0x80 only, U+FFFD reported as the byte 0xFD marker) and the position after it.
